@@ -48,7 +48,7 @@ class C08(InterpProp):
     cmp_callbacks = False
     cmp_err = 'full'
     cmp_time = False
-    quick_cases = 800
+    quick_cases = 2000
     thorough_cases = 30000
     n_ops = 24
     rule = ('random charts in which every contract condition is conjoined with its own context flag (`cN and …`); a '
